@@ -426,11 +426,19 @@ def check_c06(ix, amo_positions=()):
                          seq=f["s"]))
         elif oc == "FAILED" and exp == "raise":
             out.append(V("C06", "misclassified-failed", f"invocation {inv} returned FAILED for retriable error {f['err']}", seq=f["s"]))
-    out.extend(check_c03(ix, "C06"))
-    for v in check_c04(ix, amo_positions):
-        if v["cls"] == "entered-without-start":
-            v["prop"] = "C06"
+    first_fail = {}
+    for e in ix.kinds["api-end"]:
+        if not e.get("ok") and e.get("err") in ERROR_CLASSES and e["i"] not in first_fail:
+            first_fail[e["i"]] = e["s"]
+    for v in check_c03(ix, "C06"):
+        inv_ = next((d["inv"] for d in ix.deliveries.get(v.get("pos"), []) if d["s1"] == v.get("seq")), None)
+        if inv_ in first_fail or v["cls"] != "outcome-before-record":
             out.append(v)
+    for e in ix.kinds["fn-enter"]:
+        if e["pos"] in amo_positions and e["fn"] == "step" and e["i"] in first_fail and e["s"] > first_fail[e["i"]] \
+                and e.get("status") != "STARTED":
+            out.append(V("C06", "entered-without-start", f"at-most-once step {e['pos']} entered after the checkpoint failure while the "
+                         f"backend record is {e.get('status')}", pos=e["pos"], seq=e["s"]))
     return out
 
 
@@ -446,7 +454,8 @@ def check_c07(ix, bound=None):
         if info["outcome"] == "hang":
             if any(e["i"] == info["n"] and not e.get("ok") for e in ix.kinds["api-end"]):
                 continue  # hang after a checkpoint failure is C06's
-            out.append(V("C07", "invocation-" + info["hang"], f"invocation {info['n']} never ended: {info['hang']}",
+            out.append(V("C07", "invocation-spins" if info["hang"] == "step-budget" else "invocation-never-ends",
+                         f"invocation {info['n']} never ended: {info['hang']}",
                          hang=info["hang"], table=info.get("hang_table")))
     st = (w.final or {}).get("status")
     if st == "STUCK":
@@ -617,7 +626,7 @@ def statements(program):
             for b, br in enumerate(st["branches"]):
                 walk(br["body"], f"{pos}/b{b}")
         elif op == "map":
-            bodies = st.get("bodies") or [st["body"]] * len(st["items"])
+            bodies = st["bodies"] if "bodies" in st else [st["body"]] * len(st["items"])
             for b, body in enumerate(bodies):
                 walk(body, f"{pos}/b{b}")
 
@@ -964,4 +973,397 @@ def _cb_outcome(ix, w, pos, cbname, d, wrapped):
     elif d["how"] == "abort" and d["cls"] in SUSPEND and not d.get("inner"):
         if oid is not None and ix.hist_status(d["inv"], oid) in TERMINAL and wrapped:
             out.append(V("C14", "callback-suspended-on-terminal", f"{pos}: result() suspended although history holds terminal status", pos=pos, seq=d["s1"]))
+    return out
+
+
+# --------------------------------------------------------------------------- C17
+def _under_branch(pos):
+    p = pos.split("#")[0]
+    return "/b" in p
+
+
+def check_c17(ix, cfg):
+    out = []
+    w = ix.w
+    trace = ix.trace
+    by_inv = defaultdict(list)
+    for n, e in enumerate(trace):
+        by_inv[e["i"]].append((n, e))
+    # ancestors closure of every op
+    parent = {oid: info.get("parent") for oid, info in ix.info.items()}
+
+    def closure(oid):
+        res = set()
+        seen = 0
+        while oid and seen < 64:
+            res.add(oid)
+            oid = parent.get(oid)
+            seen += 1
+        return res
+
+    for info in w.invocations:
+        inv = info["n"]
+        done = set()
+        for oid, st in info["hist"].items():
+            if st in TERMINAL and oid in ix.info:
+                done |= closure(oid)
+        evs = by_inv.get(inv, [])
+        first = not done
+        begins = [(e["s"], ix.pos_id(e["pos"])) for _, e in evs if e["k"] == "call-begin"]
+        wfc_inner = {}
+        for n, e in evs:
+            if e["k"] != "log-call":
+                continue
+            pos = e["pos"]
+            if _under_branch(pos):
+                continue
+            nxt = None
+            for m in range(n + 1, min(len(trace), n + 400)):
+                if trace[m]["t"] == e["t"] and trace[m]["i"] == inv:
+                    nxt = trace[m]
+                    break
+            emitted = bool(nxt is not None and nxt["k"] == "log" and nxt["msg"] == "L:" + pos)
+            silent_expected = (not first) and any(s > e["s"] and oid in done for s, oid in begins)
+            if silent_expected and emitted:
+                out.append(V("C17", "logged-during-replay", f"invocation {inv}: log call at {pos} precedes an operation already complete in "
+                             f"the history but was emitted", pos=pos, seq=e["s"]))
+            elif not silent_expected and not emitted:
+                cls_ = "silent-after-replay"
+                if inv == 1:
+                    cls_ = "silent-in-first-invocation"
+                elif first:
+                    cls_ = "silent-with-no-completed-operation"
+                out.append(V("C17", cls_,
+                             f"invocation {inv}: log call at {pos} comes after every completed operation but was not emitted",
+                             pos=pos, seq=e["s"]))
+            if emitted:
+                ex = nxt.get("extra") or {}
+                if ex.get("executionArn") != w.backend.arn:
+                    out.append(V("C17", "record-missing-arn", f"log record at {pos} lacks executionArn", pos=pos, seq=e["s"]))
+                if pos.endswith("#fn"):
+                    p = pos[:-3]
+                    oid = ix.pos_id(p)
+                    st = statements(cfg["program"]).get(p) or {}
+                    if st.get("op") == "step":
+                        if oid is not None and ex.get("operationId") != oid:
+                            out.append(V("C17", "record-wrong-operation", f"step log at {pos} carries operationId {ex.get('operationId')}", pos=pos, seq=e["s"]))
+                        if ex.get("operationName") != p:
+                            out.append(V("C17", "record-wrong-operation", f"step log at {pos} carries operationName {ex.get('operationName')}", pos=pos, seq=e["s"]))
+                        if "attempt" not in ex:
+                            out.append(V("C17", "record-wrong-operation", f"step log at {pos} lacks attempt", pos=pos, seq=e["s"]))
+                else:
+                    c = ctx_pos(pos)
+                    if c[0] == "child":
+                        cid = ix.pos_id(c[1])
+                        if cid is not None and ex.get("parentId") != cid:
+                            out.append(V("C17", "record-wrong-parent", f"log at {pos} inside child {c[1]} carries parentId {ex.get('parentId')}", pos=pos, seq=e["s"]))
+    return out
+
+
+# --------------------------------------------------------------------------- C18
+INVOCATION_FAMILY = {"InvocationError", "StepInterruptedError", "BotoClientError", "CheckpointError", "GetExecutionStateError"}
+
+
+def check_c18(ix, cfg):
+    out = []
+    w = ix.w
+    for info in w.invocations:
+        inv = info["n"]
+        oc = info["outcome"]
+        r = ix.inv_return.get(inv)
+        if oc == "malformed":
+            out.append(V("C18", "malformed-output", f"invocation {inv} returned {str(info.get('ret'))[:120]}"))
+            continue
+        if oc in ("crash",):
+            continue
+        if oc == "hang":
+            fails = [e for e in ix.kinds["api-end"] if e["i"] == inv and not e.get("ok")]
+            if not fails:
+                out.append(V("C18", "no-outcome", f"invocation {inv} never produced an outcome: {info.get('hang')}", table=info.get("hang_table")))
+            continue
+        if oc in ("SUCCEEDED", "FAILED", "PENDING"):
+            ret = info["ret"]
+            keys = set(ret.keys())
+            if oc == "SUCCEEDED" and (not isinstance(ret.get("Result"), str) or "Error" in keys):
+                out.append(V("C18", "malformed-output", f"invocation {inv}: SUCCEEDED output {str(ret)[:120]}"))
+            if oc == "FAILED" and "Result" in keys:
+                out.append(V("C18", "malformed-output", f"invocation {inv}: FAILED output carries a Result"))
+            if oc == "FAILED" and "Error" not in keys and w.backend.exec_record_seq is None:
+                out.append(V("C18", "malformed-output", f"invocation {inv}: FAILED without Error and without a recorded execution result"))
+            if oc == "FAILED" and "Error" in keys and not isinstance(ret["Error"], dict):
+                out.append(V("C18", "malformed-output", f"invocation {inv}: FAILED Error is {type(ret['Error']).__name__}"))
+            if oc == "PENDING" and (keys - {"Status"}):
+                out.append(V("C18", "malformed-output", f"invocation {inv}: PENDING output carries {sorted(keys)}"))
+            if oc == "SUCCEEDED":
+                try:
+                    json.loads(ret["Result"]) if ret["Result"] != "" else None
+                except (ValueError, TypeError):
+                    out.append(V("C18", "malformed-output", f"invocation {inv}: Result is not JSON"))
+        if oc == "raise":
+            why = []
+            if inv == 1 and (cfg.get("bad_event") is not None or cfg.get("bad_input")):
+                why.append("malformed event")
+            for e in ix.kinds["api-end"]:
+                if e["i"] == inv and not e.get("ok") and e.get("err") in ERROR_CLASSES:
+                    b = next((b for b in ix.kinds["api-begin"] if b["call"] == e["call"]), None)
+                    if expected_for_error(e["err"], b["op"] if b else "checkpoint") == "raise":
+                        why.append("retriable api error")
+                elif e["i"] == inv and not e.get("ok") and e.get("err") == "stale-token":
+                    pass
+            for e in ix.kinds["call-raise"] + ix.kinds["user-raise"]:
+                if e["i"] == inv and (e.get("inv_level") or e.get("cls") in INVOCATION_FAMILY):
+                    why.append("invocation-level error")
+            if info.get("exc_cls") in ("StepInterruptedError",):
+                why.append("step interrupted")
+            if not why:
+                out.append(V("C18", "unexpected-raise", f"invocation {inv} raised {info.get('exc_cls')}: {info.get('exc_msg')}: no retriable "
+                             f"checkpoint error, invocation-level error or malformed payload occurred", seq=r["s"] if r else 0,
+                             exc=info.get("exc_cls")))
+        if r is not None:
+            live = [n for n in r.get("live", []) if n.startswith("dex-handler")]
+            if live:
+                out.append(V("C18", "checkpoint-thread-alive", f"invocation {inv} returned while {live} still alive", seq=r["s"]))
+            inflight = []
+            ends = {e["call"] for e in ix.kinds["api-end"]}
+            for b in ix.kinds["api-begin"]:
+                if b["i"] == inv and b["s"] < r["s"] and b["call"] not in ends:
+                    inflight.append(b["call"])
+                if b["i"] == inv and b["s"] > r["s"]:
+                    out.append(V("C18", "api-call-after-return", f"invocation {inv}: API call {b['call']} begun after the handler returned", seq=b["s"]))
+            later_end = [e for e in ix.kinds["api-end"] if e["i"] == inv and e["s"] > r["s"]]
+            if later_end:
+                out.append(V("C18", "api-call-in-flight-at-return", f"invocation {inv}: API call {later_end[0]['call']} still in flight at return", seq=r["s"]))
+    return out
+
+
+# --------------------------------------------------------------------------- C16
+def check_c16(ix, cfg):
+    out = []
+    w = ix.w
+    lim = cfg.get("limits") or {}
+    ck = lim.get("ckpt", 256 * 1024)
+    rl = lim.get("resp", 6 * 1024 * 1024 - 50)
+    for e in ix.kinds["applied"]:
+        if e["type"] == "CONTEXT" and e["action"] == "SUCCEED" and e["size"] > ck:
+            out.append(V("C16", "oversized-checkpoint", f"CONTEXT SUCCEED for {e.get('name')} carries {e['size']} bytes > limit {ck}",
+                         pos=e.get("name"), seq=e["s"]))
+    # replay equality for contexts recorded with ReplayChildren
+    rc_names = {e.get("name") for e in ix.kinds["applied"] if e.get("replay_children")}
+    for v in check_c02(ix):
+        if v.get("pos") in rc_names or any(str(v.get("pos", "")).startswith(str(n) + "/") for n in rc_names if n):
+            v = dict(v)
+            v["prop"] = "C16"
+            v["cls"] = "replayed-" + v["cls"]
+            out.append(v)
+    for e in ix.kinds["fn-enter"]:
+        if e.get("status") in TERMINAL:
+            out.append(V("C16", "reexecuted-during-replay", f"user function of {e['pos']} re-entered while backend holds {e['status']}",
+                         pos=e["pos"], seq=e["s"]))
+    for e in ix.kinds["applied"]:
+        if e.get("under_done"):
+            out.append(V("C16", "record-sent-during-replay", f"{e['type']} {e['action']} for {e.get('name')} sent under completed context "
+                         f"{e.get('under_name')}", pos=e.get("name"), seq=e["s"]))
+    # handler result
+    for hx in ix.kinds["handler-exit"]:
+        inv = hx["i"]
+        info = ix.invs.get(inv)
+        r = ix.inv_return.get(inv)
+        if info is None or r is None or info["outcome"] not in ("SUCCEEDED", "FAILED"):
+            continue
+        if not hx["serialisable"]:
+            continue
+        ret = info["ret"]
+        big = hx["size"] > rl
+        recs = [e for e in ix.kinds["applied"] if e["type"] == "EXECUTION" and e["i"] == inv]
+        if any(e["i"] == inv and not e.get("ok") for e in ix.kinds["api-end"]):
+            continue
+        if big:
+            if info["outcome"] != "SUCCEEDED" or ret.get("Result") != "":
+                out.append(V("C16", "large-result-in-response", f"handler result of {hx['size']} bytes > {rl} but invocation returned "
+                             f"{info['outcome']} with payload of {len(ret.get('Result') or '')} bytes", seq=r["s"]))
+            if not recs or recs[0]["s"] > r["s"] or recs[0]["action"] != "SUCCEED":
+                out.append(V("C16", "large-result-not-recorded", "large handler result was not recorded as the execution result before the "
+                             "invocation returned", seq=r["s"]))
+            elif recs[0]["size"] != hx["size"]:
+                out.append(V("C16", "large-result-altered", f"recorded execution result has {recs[0]['size']} bytes, handler produced {hx['size']}",
+                             seq=r["s"]))
+        else:
+            if recs:
+                out.append(V("C16", "small-result-recorded", "EXECUTION record sent although the result fits the response", seq=r["s"]))
+            elif info["outcome"] == "SUCCEEDED" and len(ret.get("Result") or "") != hx["size"]:
+                out.append(V("C16", "result-altered", f"returned payload has {len(ret.get('Result') or '')} bytes, handler produced {hx['size']}", seq=r["s"]))
+    # large error path
+    for info in w.invocations:
+        if info["outcome"] == "FAILED" and not any(h["i"] == info["n"] for h in ix.kinds["handler-exit"]):
+            ret = info["ret"]
+            r = ix.inv_return.get(info["n"])
+            recs = [e for e in ix.kinds["applied"] if e["type"] == "EXECUTION" and e["i"] == info["n"]]
+            if any(e["i"] == info["n"] and not e.get("ok") for e in ix.kinds["api-end"]):
+                continue
+            if "Error" in ret:
+                size = len(json.dumps(ret))
+                if size > rl:
+                    out.append(V("C16", "large-error-in-response", f"FAILED response of {size} bytes exceeds the limit {rl}", seq=r["s"] if r else 0))
+                if recs:
+                    out.append(V("C16", "small-result-recorded", "EXECUTION FAIL record sent although the error fits the response"))
+            else:
+                if not recs or recs[0]["action"] != "FAIL" or (r and recs[0]["s"] > r["s"]):
+                    out.append(V("C16", "large-error-not-recorded", "FAILED with empty payload but no EXECUTION FAIL record before the return"))
+    return out
+
+
+# --------------------------------------------------------------------------- C09
+def _policy_decided(cfgc, n, succ, fail, strict):
+    mn = cfgc.get("min")
+    tol = cfgc.get("tol")
+    pct = cfgc.get("pct")
+    if succ + fail >= n:
+        return True
+    if succ >= (mn or n):
+        return True
+    if tol is None and pct is None:
+        if strict or mn is None:
+            return fail > 0
+        return False
+    if tol is not None and fail > tol:
+        return True
+    if pct is not None and n > 0 and (fail / n) * 100 > pct:
+        return True
+    return False
+
+
+def check_c09(ix, cfg):
+    out = []
+    w = ix.w
+    stmts = statements(cfg["program"])
+    for pos, st in stmts.items():
+        if st["op"] not in ("parallel", "map"):
+            continue
+        n = len(st["branches"]) if st["op"] == "parallel" else len(st["items"])
+        # default config when none given: parallel -> all_successful-like CompletionConfig default of ParallelConfig; map -> CompletionConfig()
+        c = st.get("cfg")
+        if c is None:
+            cc = {"tol": 0, "pct": 0} if st["op"] == "parallel" else {}
+            conc = None
+        else:
+            cc = {k: c[k] for k in ("min", "tol", "pct") if c.get(k) is not None}
+            conc = c.get("conc")
+        ds = ix.deliveries.get(pos, [])
+        # hang / odd raise
+        for d in ds:
+            if d["how"] == "raise" and d["cls"] not in ("CallableRuntimeError",) and not d.get("inv_level"):
+                out.append(V("C09", "raised-for-valid-input", f"{pos}: {st['op']} of {n} items raised {d['cls']}: {d['msg']}", pos=pos, seq=d["s1"], n=n))
+        first_ret = {}
+        for d in ds:
+            if d["how"] == "ret" and d["inv"] not in first_ret:
+                first_ret[d["inv"]] = d
+        for inv, d in first_ret.items():
+            v = d["v"]
+            if v[0] != "batch":
+                out.append(V("C09", "not-a-batch-result", f"{pos}: returned {str(v)[:80]}", pos=pos, seq=d["s1"]))
+                continue
+            reason, items = v[1], v[2]
+            if [it[0] for it in items] != list(range(n)):
+                out.append(V("C09", "items-not-one-per-input", f"{pos}: item indexes {[it[0] for it in items]} for {n} inputs", pos=pos, seq=d["s1"]))
+                continue
+            hs = ix.hist_status(inv, ix.pos_id(pos)) if ix.pos_id(pos) else None
+            replayed = hs in TERMINAL
+            succ = sum(1 for it in items if it[1] == "SUCCEEDED")
+            fail = sum(1 for it in items if it[1] == "FAILED")
+            started = sum(1 for it in items if it[1] == "STARTED")
+            # (5) reason consistent with statuses
+            if reason == "ALL_COMPLETED" and started:
+                out.append(V("C09", "reason-inconsistent", f"{pos}: ALL_COMPLETED with {started} STARTED items (config {cc})", pos=pos, seq=d["s1"],
+                             reason=reason))
+            if reason == "MIN_SUCCESSFUL_REACHED" and (cc.get("min") is None or succ < cc["min"]):
+                out.append(V("C09", "reason-inconsistent", f"{pos}: MIN_SUCCESSFUL_REACHED with {succ} successes, min {cc.get('min')}", pos=pos,
+                             seq=d["s1"], reason=reason))
+            if reason == "FAILURE_TOLERANCE_EXCEEDED":
+                exceeded = (cc.get("tol") is not None and fail > cc["tol"]) or (cc.get("pct") is not None and n and fail / n * 100 > cc["pct"]) \
+                    or (cc.get("tol") is None and cc.get("pct") is None and fail > 0)
+                if not exceeded:
+                    out.append(V("C09", "reason-inconsistent", f"{pos}: FAILURE_TOLERANCE_EXCEEDED with {fail} failures, config {cc}", pos=pos,
+                                 seq=d["s1"], reason=reason))
+            if replayed:
+                continue
+            # ground truth from branch body probes of this invocation (and earlier ones for branches completed earlier)
+            exits = {}
+            for e in ix.kinds["body-exit"]:
+                if e.get("parent") == pos and e["s"] < d["s1"] and e.get("outcome") in ("ret", "raise") and e.get("cls") not in SUSPEND \
+                        and e.get("cls") not in ("OrphanedChildException", "BackgroundThreadError"):
+                    exits[e["index"]] = e
+            for it in items:
+                idx, status, res, err = it
+                x = exits.get(idx)
+                if status == "SUCCEEDED":
+                    if x is None or x.get("outcome") != "ret":
+                        out.append(V("C09", "item-without-outcome", f"{pos}: item {idx} reported SUCCEEDED but its body had not finished",
+                                     pos=pos, seq=d["s1"]))
+                    elif res != x["v"]:
+                        out.append(V("C09", "item-wrong-result", f"{pos}: item {idx} result {json.dumps(res)[:80]} but branch produced "
+                                     f"{json.dumps(x['v'])[:80]}", pos=pos, seq=d["s1"]))
+                elif status == "FAILED":
+                    if x is None or x.get("outcome") != "raise":
+                        out.append(V("C09", "item-without-outcome", f"{pos}: item {idx} reported FAILED but its body had not failed", pos=pos, seq=d["s1"]))
+                    elif err is None or err[1] != x.get("msg"):
+                        out.append(V("C09", "item-wrong-error", f"{pos}: item {idx} error {err} but branch raised {x.get('cls')}: {x.get('msg')}",
+                                     pos=pos, seq=d["s1"]))
+            # (4a) not too early: decided under R-strict on bodies finished so far
+            s_fin = sum(1 for x in exits.values() if x["outcome"] == "ret")
+            f_fin = sum(1 for x in exits.values() if x["outcome"] == "raise")
+            if not _policy_decided(cc, n, s_fin, f_fin, strict=True):
+                out.append(V("C09", "returned-too-early", f"{pos}: returned with {s_fin} successes / {f_fin} failures of {n} finished, policy {cc} "
+                             f"not decided", pos=pos, seq=d["s1"]))
+        # (1) concurrency bound
+        if conc:
+            active = defaultdict(int)
+            mx = 0
+            for e in sorted(ix.kinds["body-enter"] + ix.kinds["body-exit"], key=lambda e: e["s"]):
+                if e.get("parent") != pos:
+                    continue
+                key = e["i"]
+                if e["k"] == "body-enter":
+                    active[key] += 1
+                    mx = max(mx, active[key])
+                else:
+                    active[key] -= 1
+            if mx > conc:
+                out.append(V("C09", "concurrency-exceeded", f"{pos}: {mx} branch bodies active at once, max_concurrency {conc}", pos=pos, seq=0))
+        # (4b) not too late
+        for inv, d in first_ret.items():
+            hs = ix.hist_status(inv, ix.pos_id(pos)) if ix.pos_id(pos) else None
+            if hs in TERMINAL:
+                continue
+            # decision instant: earliest seq x at which branch-context records applied so far decide the policy (R-lenient)
+            recs = []
+            pid = ix.pos_id(pos)
+            for e in ix.kinds["applied"]:
+                if e.get("parent") == pid and e["type"] == "CONTEXT" and e["action"] in ("SUCCEED", "FAIL") and e["sub"] in ("ParallelBranch", "MapIteration"):
+                    recs.append(e)
+            s_c = f_c = 0
+            x = None
+            for e in sorted(recs, key=lambda e: e["s"]):
+                if e["action"] == "SUCCEED":
+                    s_c += 1
+                else:
+                    f_c += 1
+                if _policy_decided(cc, n, s_c, f_c, strict=False) and e["i"] == inv:
+                    x = e
+                    break
+            if x is None or x["s"] > d["s1"]:
+                continue
+            for fe in ix.kinds["fn-enter"]:
+                if fe["i"] != inv or not _is_under(fe["pos"], pos) or fe["s"] > x["s"]:
+                    continue
+                ex = next((q for q in ix.kinds["fn-exit"] if q["pos"] == fe["pos"] and q["n"] == fe["n"]), None)
+                if ex is None or ex["s"] > d["s1"]:
+                    continue
+                if ex["s"] > x["s"] and ex["vt"] - x["vt"] >= 8.0:
+                    out.append(V("C09", "returned-too-late", f"{pos}: policy decided at seq {x['s']} (vt {x['vt']}) but the call returned only "
+                                 f"after the long-running function of {fe['pos']} finished at vt {ex['vt']}", pos=pos, seq=d["s1"]))
+                    break
+    # hangs
+    for info in w.invocations:
+        if info["outcome"] == "hang" and not any(e["i"] == info["n"] and not e.get("ok") for e in ix.kinds["api-end"]):
+            out.append(V("C09", "call-never-returned", f"invocation {info['n']}: {info.get('hang')} inside map/parallel", table=info.get("hang_table")))
     return out
